@@ -299,6 +299,18 @@ impl R {
         }
         out
     }
+    fn rewards_vault(&mut self) -> BigInt {
+        let ledger = self.ledger.as_mut().unwrap();
+        let vault = {
+            let reader = SystemDatabaseReader::new(ledger.substate_db());
+            let sub = reader
+                .read_typed_object_field::<ConsensusManagerValidatorRewardsFieldPayload>(CONSENSUS_MANAGER.as_node_id(), ModuleId::Main, ConsensusManagerField::ValidatorRewards.field_index())
+                .unwrap()
+                .fully_update_and_into_latest_version();
+            sub.rewards_vault.0
+        };
+        big(ledger.inspect_vault_balance(vault.0).unwrap())
+    }
     fn redemption_value(&mut self, label: usize, u: &BigInt) -> Option<BigInt> {
         let addr = self.world.as_ref().unwrap().vals[label].0;
         let m = ManifestBuilder::new()
@@ -356,6 +368,7 @@ impl R {
     fn do_round(&mut self, leader: u8, gaps: Vec<u8>, epoch_change: bool) -> Answer {
         let world = self.world.clone().unwrap();
         let before_states = self.all_states();
+        let rewards_vault_before = self.rewards_vault();
         let ledger = self.ledger.as_mut().unwrap();
         let cur_round = ledger.get_consensus_manager_state().round.number();
         let ts = ledger.get_current_proposer_timestamp_ms() + if epoch_change { 100_000 } else { 0 };
@@ -411,7 +424,11 @@ impl R {
         }
         let st = self.all_states();
         let fmt_pairs = |v: &Vec<(usize, BigInt)>| if v.is_empty() { "-".to_string() } else { v.iter().map(|(l, x)| format!("{}:{}", l, x)).collect::<Vec<_>>().join(";") };
-        let ans = format!("ok set={} em={} st={}", fmt_pairs(&set), fmt_pairs(&ems), Self::fmt_states(&st));
+        let ans = if self.fees {
+            format!("ok set={} em={} rw={}/{} st={}", fmt_pairs(&set), fmt_pairs(&ems), rewards_total, rewards_vault_before, Self::fmt_states(&st))
+        } else {
+            format!("ok set={} em={} st={}", fmt_pairs(&set), fmt_pairs(&ems), Self::fmt_states(&st))
+        };
         // ---- oracle
         let minted: BigInt = ems.iter().map(|x| x.1.clone()).sum();
         if minted > world.emission {
@@ -423,6 +440,10 @@ impl R {
         let vault_delta: BigInt = st.iter().zip(before_states.iter()).map(|(a, b)| &a.t - &b.t).sum();
         if vault_delta != &minted + &rewards_total {
             return Answer::fail(ans, "emission-not-conserved", format!("stake vaults grew by {} but emissions+rewards are {}", vault_delta, &minted + &rewards_total));
+        }
+        let rewards_vault_after = self.rewards_vault();
+        if rewards_total > rewards_vault_before || &rewards_vault_before - &rewards_vault_after != rewards_total {
+            return Answer::fail(ans, "rewards-above-vault", format!("rewards {} distributed from a vault of {} (after: {})", rewards_total, rewards_vault_before, rewards_vault_after));
         }
         if set.len() > world.max_v {
             return Answer::fail(ans, "set-too-large", format!("{} validators selected, max {}", set.len(), world.max_v));
